@@ -52,6 +52,10 @@ type MOp struct {
 type Mapping struct {
 	B     int64
 	Scale float64
+	// Off: real value = Off + x * Scale. With Off = 1 and Scale = 2^-52 neighbouring model values are neighbouring
+	// float64 numbers (they differ in the last bit and need 17 significant digits); only for histories without value
+	// arithmetic (methods last/max/min/first; copy, diff, view), where equality, order and differences are preserved exactly.
+	Off float64
 }
 
 func (m Mapping) T(t int64) uint32 {
@@ -65,7 +69,20 @@ func (m Mapping) V(v []int64) float64 {
 	if len(v) == 0 {
 		return math.NaN()
 	}
-	return float64(v[0]) * m.Scale
+	return m.Off + float64(v[0])*m.Scale
+}
+
+// a difference of two real values (diff's dest-src column) in model units
+func (m Mapping) modelDelta(v float64) []int64 {
+	if math.IsNaN(v) {
+		return []int64{}
+	}
+	x := v / m.Scale
+	if x != math.Trunc(x) || math.Abs(x) > 2e9 {
+		unrepSeen = true
+		return []int64{unrepresentable}
+	}
+	return []int64{int64(x)}
 }
 
 // Real (observed) slot.
